@@ -126,7 +126,14 @@ func VerifC03_Operations() {
 	if jewel {
 		stored.Meta().MakeCrownJewel()
 	}
-	rt.Assert(privileged.Put(stored) == nil, "setup/privileged-put")
+	if rt.Bool("setup-putnew") {
+		// (PutNew resets the time stamps, never the flags)
+		rt.Assert(privileged.PutNew(stored) == nil, "setup/privileged-putnew")
+	} else {
+		rt.Assert(privileged.Put(stored) == nil, "setup/privileged-put")
+	}
+	rt.Assert(stored.Meta().CheckPermission(true, false) == !secret, "setup/secret-flag-kept")
+	rt.Assert(stored.Meta().CheckPermission(false, true) == !jewel, "setup/crownjewel-flag-kept")
 	decoy := newRec("a/other", 6)
 	rt.Assert(privileged.Put(decoy) == nil, "setup/decoy-put")
 
